@@ -923,6 +923,7 @@ def rule_literal_escape(rep, crate):
 from mirlib import control_slice, edge_regions
 
 GATE_REGION_OK = re.compile(r'(parser::Parser::err$|error::Errors::err$|^std::fmt::|^core::fmt::|^std::hint::must_use$|^alloc::fmt::format|IntoIterator>::into_iter$|Iterator>::next$|^pattern::Pattern::source$'
+                            r'|slice::<impl \[T\]>::iter$|Iterator>?::filter$|Properties::is_utf8$|Hir::properties$|^pattern::Pattern::hir$'
                             r'|^quote::|^proc_macro2::|ToTokens|^<.* as std::ops::Deref(Mut)?>::deref(_mut)?$|^std::mem::drop|Vec::<T, A>::is_empty$|Spanned>::span$|::span$|ToString>::to_string$|^syn::Ident'
                             r'|<.* as std::convert::(Into|From)<.*>>::(into|from)$|^std::convert::Into::into$|^std::borrow::)')
 
@@ -1150,6 +1151,9 @@ def rule_utf8_gate(rep, crate):
                 for d in ctl:
                     sl = fn.slice(d)
                     if any(re.search(r'is_empty$', c) for c in sl.calls) and t['dest']['local'] in fn.slice(d).locals:
+                        dep_coll = True
+                    # or: the error sits in a loop that draws directly from the filtered iterator
+                    if any(re.search(r'Iterator>?::next$', c) for c in sl.calls) and t['dest']['local'] in sl.locals:
                         dep_coll = True
                 if dep_flag and dep_coll:
                     errs.append(eb)
